@@ -48,7 +48,7 @@ var Check = &run.Check{
 		"and the second file declares one struct/interface/exported function resp. class/capitalised function under a name the first file declares too, with members of its own - Go: same package clause, e.g. two `package main`, in 2/3 of these; " +
 		"the flattened model then has to list such a name as often as it is declared, each entry with its own members); " +
 		"even index: Python module (imports `import a`, `import a.b.c`, `import a.b as c`, `import a, b`, `from a import b, c`, `from a import b as c`, `from a import (b, c,)` on one or several lines, `from . import x`, `from ..p import x`, `from a import *`; " +
-		"0-2 decorated classes with 0-3 decorated methods, decorated/async functions, nested defs up to depth 2, class attributes, docstrings and strings that look like declarations, comments, multi-line bracketed statements, indent 2/4/tab, CRLF (1 in 8), no final newline, a last line of bare indentation without newline (1 in 16), empty and blank-only lines inside indented blocks (1 in 3), one physical line of 64-73 KiB - string literal or comment - before further declarations (1 in 30)). " +
+		"0-2 decorated classes with 0-3 decorated methods, decorated/async functions, nested defs up to depth 2, parameter lists incl. defaults, annotations, bare `*`, and lists made only of `*args` / `**kwargs` (functions, methods, nested defs), class attributes, docstrings and strings that look like declarations, comments, multi-line bracketed statements, indent 2/4/tab, CRLF (1 in 8), no final newline, a last line of bare indentation without newline (1 in 16), empty and blank-only lines inside indented blocks (1 in 3), one physical line of 64-73 KiB - string literal or comment - before further declarations (1 in 30)). " +
 		"Modules stay within 30 lexer events (logical lines + INDENT + DEDENT); 1 module in 40 is 'large' (median 69, up to ~300 events; either structured or 33-70 one-line declarations) and is parsed only in fresh child processes. " +
 		"Every module first has to pass coca's own Python parser (languages/python + counting error listener); a reject is inconclusive. " +
 		"odd index: Go file accepted by go/parser (0-5 imports in 3 layouts, aliases, `_`; 1-6 structs with 0-5 field lines incl. `a, b T`, tags, embedded fields, pointer/slice/map/func/chan/qualified types; 0-3 interfaces incl. empty and embedding ones; single or grouped type declarations; " +
@@ -636,6 +636,10 @@ func pyDimensions(o *run.Outcome, m *gopygen.PyModule) {
 	if m.LongLine {
 		o.Count("dim_py_module_with_line_of_64KiB_or_more", 1)
 	}
+	top, meth, nested := m.StarOnlyDefs()
+	o.Count("dim_py_function_with_only_star_parameters", top)
+	o.Count("dim_py_method_with_only_star_parameters", meth)
+	o.Count("dim_py_nested_def_with_only_star_parameters", nested)
 	if m.TrailIndent != "" {
 		o.Count("dim_py_last_line_bare_indentation_without_newline", 1)
 		if len(m.Items) == 1 {
